@@ -361,6 +361,7 @@ Diag(e) ==
             <<"diag_iter_this_run", {"C18"}, \A i \in 1..(N - 1) : e.iter_this_run[Nx(i)] = (IF sameRun(i) THEN e.iter_this_run[i] + 1 ELSE 0)>>,
             <<"diag_counters_monotone", {"C18"}, \A i \in 1..(N - 1) : e.nf[Nx(i)] >= e.nf[i] /\ e.nx[Nx(i)] >= e.nx[i] /\ e.nruns[Nx(i)] >= e.nruns[i]>>,
             <<"diag_counters_bounded", {"C18"}, \A i \in Row : e.nf[i] <= nf /\ e.nx[i] <= nx /\ e.nx[i] <= e.nf[i] /\ e.nruns[i] < nruns>>,
+            <<"diag_counters_bounded_by_result", {"C18"}, \A i \in Row : e.nf[i] <= e.rnf /\ e.nx[i] <= e.rnx /\ e.nruns[i] < e.rnruns>>,
             <<"diag_npt_range", {"C18"}, \A i \in Row : e.npt[i] >= 2 /\ e.npt[i] <= Cfg.maxnpt>> >>)
   /\ UNCH(<<nf, nx, mdl, batch, x0st, curxid, ptxid, bestf, bestBeforeFault, faulted, raisedSeen>>) /\ UNCH(Rest1)
 
